@@ -338,6 +338,49 @@ def _alt_classes(annotation):
     return out
 
 
+def _is_instance_of_package_class(r):
+    with_no = getattr(type(r), "__module__", "")
+    return with_no == "lsprotocol.types" and attrs.has(type(r))
+
+
+def _needs_conversion(t, depth=0):
+    """does a JSON value of spec type t contain a protocol object (something the converter turns into a class)?"""
+    k = t["kind"]
+    if depth > 12:
+        return False
+    if k == "reference":
+        n = t["name"]
+        if n in specmodel.ANY_ALIASES:
+            return False
+        if n in SPEC.structs:
+            return True
+        if n in SPEC.aliases:
+            return _needs_conversion(SPEC.aliases[n]["type"], depth + 1)
+        return False
+    if k == "array":
+        return _needs_conversion(t["element"], depth + 1)
+    if k == "map":
+        return _needs_conversion(t["value"], depth + 1)
+    if k in ("or", "tuple", "and"):
+        return any(_needs_conversion(i, depth + 1) for i in t["items"])
+    if k == "literal":
+        return bool(t["value"]["properties"])
+    return False
+
+
+def _raw_in(x):
+    """an uninterpreted JSON object (or a container holding one) where a converted value belongs"""
+    if isinstance(x, LazyObj):
+        return True
+    if isinstance(x, Opaque):
+        return _needs_conversion(x.t)
+    if isinstance(x, (list, tuple)):
+        return any(_raw_in(e) for e in x)
+    if isinstance(x, dict):
+        return any(_raw_in(e) for e in x.values())
+    return False
+
+
 def _elem_annotations(annotation, is_tuple, n):
     """element annotations of the array / tuple alternatives of `annotation`; [annotation] when it has none
     (the walk lost track of the annotation: keep the weaker per-element test)"""
@@ -378,6 +421,16 @@ def acceptable(d, env, v, r, annotation):
         raise Inconclusive("opaque value at the inspected level")
     if isinstance(v, LazyObj):
         if not isinstance(r, Dispatched):
+            if _is_instance_of_package_class(r):
+                # the hook built the object itself instead of asking the converter (a "fast path"): acceptable iff it
+                # is an alternative the input is valid for AND nothing that needed converting was stored raw
+                t = cls_spec(type(r))
+                if t is None or type(r) not in _alt_classes(annotation):
+                    return False
+                for f in attrs.fields(type(r)):
+                    if _alt_classes(f.type) and _raw_in(getattr(r, f.name)):
+                        return False
+                return shapes.valid(SPEC, d, env, t)
             # raw pass-through is only acceptable at LSPAny/LSPObject positions and for the property-less
             # literal `{}` (mapped to Any by the documented type mapping)
             if d["spec"] is None and not d["props"]:
